@@ -10,8 +10,17 @@
 //!   the context and the authenticated signers it received.  The logs live on the Rust side
 //!   (thread-local) so that the calls of a failing check stay visible; the *committed* enforcements
 //!   are additionally counted in the policy's own storage (rolled back by the host on failure).
-//! * delegated signers are plain addresses, authorised (when the model says "valid") by a
-//!   `MockAuth` for `__check_auth(payload)` on the account — the pattern of the repository's tests.
+//! * delegated signers are instances of an always-yes custom account; such a signer "signs" a check iff a
+//!   genuine authorization entry for `__check_auth(payload)` on the smart account is attached for it
+//!   (`Env::set_auths`; nothing is mocked for a check);
+//! * `Target` (c1..c3) — `ping(who, next)` requires `who`'s authorization and optionally calls the next
+//!   target: the end-to-end op `e2e` invokes it with a genuine `SorobanAuthorizationEntry` for the smart
+//!   account whose signature is the crafted `Signatures` map, so the host itself derives the contexts and
+//!   the payload and runs the account's `__check_auth`.
+//!
+//! The management entry points (add/remove/update rule, signer, policy) require the account's own
+//! authorization; it is granted by the test host's recording mode for exactly that call — they are set-up for
+//! C03 and judged by the C20 registry monitors only (refusals, capacity, ids, getters), not for who may call them.
 #![allow(dead_code)]
 use std::{cell::RefCell, collections::BTreeMap};
 
@@ -21,9 +30,14 @@ use soroban_sdk::{
         CreateContractWithConstructorHostFnContext,
     },
     contract, contractimpl, symbol_short,
-    testutils::Address as _,
-    Address, Bytes, BytesN, Env, IntoVal, Map, String as SStr, Symbol, Val, Vec as SVec,
+    testutils::MockAuthInvoke,
+    xdr::{
+        Hash, HashIdPreimage, HashIdPreimageSorobanAuthorization, Limits, ScVal, SorobanAddressCredentials,
+        SorobanAuthorizationEntry, SorobanCredentials, WriteXdr,
+    },
+    Address, Bytes, BytesN, Env, IntoVal, Map, String as SStr, Symbol, TryFromVal, Val, Vec as SVec,
 };
+use sha2::{Digest, Sha256};
 use stellar_accounts::smart_account::{ContextRule, ContextRuleType, Signatures, Signer, SmartAccountError};
 use verif_harness::*;
 
@@ -137,6 +151,30 @@ impl ByteVerifier {
     }
 }
 
+/// Custom account that accepts every authorization request made with an attached entry.
+#[contract]
+pub struct YesAccount;
+
+#[contractimpl]
+impl YesAccount {
+    #[allow(non_snake_case)]
+    pub fn __check_auth(_signature_payload: Val, _signatures: Val, _auth_context: Val) {}
+}
+
+/// Call target of the end-to-end op: needs `who`'s authorization, then optionally calls the next target.
+#[contract]
+pub struct Target;
+
+#[contractimpl]
+impl Target {
+    pub fn ping(e: Env, who: Address, next: Option<Address>) {
+        who.require_auth();
+        if let Some(n) = next {
+            TargetClient::new(&e, &n).ping(&who, &None);
+        }
+    }
+}
+
 #[contract]
 pub struct LogPolicy;
 
@@ -201,6 +239,7 @@ struct Sys {
     verifier: Address,
     probe: u32,
     nonce: u8,
+    auth_nonce: i64,
 }
 
 fn arr(op: &Value, k: &str) -> Vec<String> {
@@ -226,20 +265,20 @@ impl Sys {
             wd.pcfg.insert(p.to_string(), (0, false));
         }
         for c in CALLS {
-            wd.calls.insert(c.to_string(), Address::generate(&e));
+            wd.calls.insert(c.to_string(), e.register(Target, ()));
         }
         for (i, h) in WASMS.iter().enumerate() {
             wd.wasms.insert(h.to_string(), BytesN::from_array(&e, &[i as u8 + 1; 32]));
         }
         W.with(|c| *c.borrow_mut() = wd);
-        Sys { e, account: None, verifier, probe: 2, nonce: 0 }
+        Sys { e, account: None, verifier, probe: 2, nonce: 0, auth_nonce: 0 }
     }
 
     fn signer(&self, name: &str) -> Signer {
         if name.starts_with('d') {
             let a = w(|wd| wd.dels.get(name).cloned());
             let a = a.unwrap_or_else(|| {
-                let a = Address::generate(&self.e);
+                let a = self.e.register(YesAccount, ());
                 w(|wd| wd.dels.insert(name.to_string(), a.clone()));
                 a
             });
@@ -247,6 +286,44 @@ impl Sys {
         } else {
             Signer::External(self.verifier.clone(), Bytes::from_slice(&self.e, name.as_bytes()))
         }
+    }
+
+    /// a genuine authorization entry by which `addr` authorizes exactly the invocation tree `root`
+    fn entry(&mut self, addr: &Address, signature: ScVal, root: &MockAuthInvoke) -> SorobanAuthorizationEntry {
+        self.auth_nonce += 1;
+        SorobanAuthorizationEntry {
+            root_invocation: root.into(),
+            credentials: SorobanCredentials::Address(SorobanAddressCredentials {
+                address: addr.try_into().unwrap(),
+                nonce: self.auth_nonce,
+                signature_expiration_ledger: seq(&self.e) + 1000,
+                signature,
+            }),
+        }
+    }
+
+    /// the signature map of a check and the delegated signers that really authorize it
+    fn signatures(&self, op: &Value) -> (Map<Signer, Bytes>, Vec<Address>) {
+        let e = &self.e;
+        let bad = arr(op, "bad");
+        let mut m: Map<Signer, Bytes> = Map::new(e);
+        let mut dels = Vec::new();
+        for n in arr(op, "sigs") {
+            let sg = self.signer(&n);
+            let valid = !bad.contains(&n);
+            match &sg {
+                Signer::Delegated(a) => {
+                    if valid {
+                        dels.push(a.clone());
+                    }
+                    m.set(sg, Bytes::new(e));
+                }
+                Signer::External(..) => {
+                    m.set(sg, Bytes::from_array(e, &[if valid { 1 } else { 0 }, 42]));
+                }
+            }
+        }
+        (m, dels)
     }
 
     fn signers(&self, names: &[String]) -> SVec<Signer> {
@@ -462,35 +539,57 @@ impl Sys {
                         self.nonce = self.nonce.wrapping_add(1);
                         let payload = BytesN::from_array(&e, &[self.nonce; 32]);
                         w(|wd| wd.payload = Some(Bytes::from_array(&e, &[self.nonce; 32])));
-                        let bad = arr(op, "bad");
-                        let mut m: Map<Signer, Bytes> = Map::new(&e);
-                        let mut auths = Vec::new();
-                        for n in arr(op, "sigs") {
-                            let sg = self.signer(&n);
-                            let valid = !bad.contains(&n);
-                            match &sg {
-                                Signer::Delegated(a) => {
-                                    if valid {
-                                        auths.push((a.clone(), Inv::new(&acc, "__check_auth", args(&e, (payload.clone(),)))));
-                                    }
-                                    m.set(sg, Bytes::new(&e));
-                                }
-                                Signer::External(..) => {
-                                    m.set(sg, Bytes::from_array(&e, &[if valid { 1 } else { 0 }, 42]));
-                                }
-                            }
+                        let (m, dels) = self.signatures(op);
+                        let mut entries = Vec::new();
+                        for a in dels {
+                            let inv = MockAuthInvoke { contract: &acc, fn_name: "__check_auth", args: args(&e, (payload.clone(),)), sub_invokes: &[] };
+                            entries.push(self.entry(&a, ScVal::Void, &inv));
                         }
                         let mut ctxs = SVec::new(&e);
                         for c in arr(op, "ctxs") {
                             ctxs.push_back(self.context(&c));
                         }
-                        set_auths(&e, &auths);
+                        e.set_auths(&entries);
                         let r = e.try_invoke_contract_check_auth::<SmartAccountError>(&acc, &payload, Signatures(m).into_val(&e), &ctxs);
                         match r {
                             Ok(()) => ("ok", 0),
                             Err(Ok(err)) => ("fail", err as u32 as i64),
                             Err(Err(_)) => ("fail", -1),
                         }
+                    }
+                    "e2e" => {
+                        // an invocation that requires the account's authorization, authorized by a genuine entry:
+                        // the host derives payload and contexts and calls the account's __check_auth
+                        let names = arr(op, "ctxs");
+                        assert!(!names.is_empty() && names.len() <= 2 && names.iter().all(|c| c.starts_with('c')) && names.first() != names.get(1), "e2e contexts {names:?}");
+                        let t: Vec<Address> = names.iter().map(|c| w(|wd| wd.calls.get(c).cloned()).expect("target")).collect();
+                        let next: Option<Address> = t.get(1).cloned();
+                        let (m, dels) = self.signatures(op);
+                        let sig_val: Val = Signatures(m).into_val(&e);
+                        let sub_args = args(&e, (acc.clone(), None::<Address>));
+                        let subs: Vec<MockAuthInvoke> = match &next {
+                            Some(n) => vec![MockAuthInvoke { contract: n, fn_name: "ping", args: sub_args, sub_invokes: &[] }],
+                            None => vec![],
+                        };
+                        let root = MockAuthInvoke { contract: &t[0], fn_name: "ping", args: args(&e, (acc.clone(), next.clone())), sub_invokes: &subs };
+                        let own = self.entry(&acc, ScVal::try_from_val(&e, &sig_val).expect("signature"), &root);
+                        let SorobanCredentials::Address(cr) = &own.credentials else { unreachable!() };
+                        let pre = HashIdPreimage::SorobanAuthorization(HashIdPreimageSorobanAuthorization {
+                            network_id: Hash(e.ledger().network_id().to_array()),
+                            nonce: cr.nonce,
+                            signature_expiration_ledger: cr.signature_expiration_ledger,
+                            invocation: own.root_invocation.clone(),
+                        });
+                        let digest: [u8; 32] = Sha256::digest(pre.to_xdr(Limits::none()).expect("xdr")).into();
+                        let payload = BytesN::from_array(&e, &digest);
+                        w(|wd| wd.payload = Some(Bytes::from_array(&e, &digest)));
+                        let mut entries = vec![own];
+                        for a in dels {
+                            let inv = MockAuthInvoke { contract: &acc, fn_name: "__check_auth", args: args(&e, (payload.clone(),)), sub_invokes: &[] };
+                            entries.push(self.entry(&a, ScVal::Void, &inv));
+                        }
+                        e.set_auths(&entries);
+                        res_of(&TargetClient::new(&e, &t[0]).try_ping(&acc, &next))
                     }
                     k => panic!("op {k}"),
                 }
@@ -681,9 +780,15 @@ fn drive_run(t: &mut Trace, d: &mut Drv, run: usize, len: usize) {
             }
             _ => {
                 // a check: 1-3 contexts; the supplied signers are built around the rules that could serve them
-                let nctx = *pick(&mut d.r, &[1usize, 1, 2, 2, 3]);
-                let cpool: &[&str] = if small { &["c1", "c2", "w1", "v1", "c3"] } else { &CTXS };
-                let ctxs: Vec<String> = (0..nctx).map(|_| pick(&mut d.r, cpool).to_string()).collect();
+                // a third of them end-to-end (a real invocation chain over one or two call targets)
+                let e2e = d.r.gen_bool(0.33);
+                let nctx = if e2e { *pick(&mut d.r, &[1usize, 2]) } else { *pick(&mut d.r, &[1usize, 1, 2, 2, 3]) };
+                let cpool: &[&str] = if e2e { &CALLS } else if small { &["c1", "c2", "w1", "v1", "c3"] } else { &CTXS };
+                let mut ctxs: Vec<String> = (0..nctx).map(|_| pick(&mut d.r, cpool).to_string()).collect();
+                if e2e && nctx == 2 && ctxs[0] == ctxs[1] {
+                    // a contract cannot be re-entered: the chain needs two different targets
+                    ctxs[1] = CALLS.iter().find(|c| **c != ctxs[0]).unwrap().to_string();
+                }
                 let mut sigs: Vec<String> = Vec::new();
                 for c in &ctxs {
                     let ty = type_of_ctx(c);
@@ -705,7 +810,7 @@ fn drive_run(t: &mut Trace, d: &mut Drv, run: usize, len: usize) {
                     sigs.push("u".to_string());
                 }
                 let bad: Vec<String> = if d.r.gen_bool(0.2) && !sigs.is_empty() { vec![pick(&mut d.r, &sigs).clone()] } else { vec![] };
-                with(mkop("check"), &[("sigs", json!(sigs)), ("bad", json!(bad)), ("ctxs", json!(ctxs))])
+                with(mkop(if e2e { "e2e" } else { "check" }), &[("sigs", json!(sigs)), ("bad", json!(bad)), ("ctxs", json!(ctxs))])
             }
         };
         let op = with(op, &[("dt", json!(dt))]);
